@@ -3,10 +3,14 @@ package props
 import (
 	"fmt"
 	"net/netip"
+	"os"
+	"path/filepath"
 	"strings"
 	"sync"
+	"sync/atomic"
 
 	"github.com/AdguardTeam/urlfilter"
+	"github.com/AdguardTeam/urlfilter/filterlist"
 	"github.com/AdguardTeam/urlfilter/filterutil"
 	"github.com/AdguardTeam/urlfilter/rules"
 
@@ -178,6 +182,57 @@ func c18ParseWritten(line string) (l c18Line, ok bool) {
 	return l, true
 }
 
+var c18FileSeq atomic.Int64
+
+// c18FileEngine asks the DNS engine over three *file-backed* lists: a list with
+// another rule, an empty list, and a list that holds another hosts line followed
+// by the line under test as its last line without a terminator; the other
+// line's name is asked first.
+func c18FileEngine(c *Ctx, l c18Line) {
+	dir := os.Getenv("VERIF_WORK")
+	contents := []string{"! comment\n0.0.0.0 first.test\n", "", "0.0.0.0 warm.test\n" + l.line}
+	var ls []filterlist.RuleList
+	var files []*filterlist.FileRuleList
+	var paths []string
+	for i, ct := range contents {
+		p := filepath.Join(dir, fmt.Sprintf("c18-%d-%d.txt", os.Getpid(), c18FileSeq.Add(1)))
+		if err := os.WriteFile(p, []byte(ct), 0o644); err != nil {
+			panic(HarnessError(err.Error()))
+		}
+		paths = append(paths, p)
+		fl, err := filterlist.NewFileRuleList(i+1, p, false)
+		if err != nil {
+			panic(HarnessError(err.Error()))
+		}
+		files = append(files, fl)
+		ls = append(ls, fl)
+	}
+	defer func() {
+		for i, fl := range files {
+			_ = fl.Close()
+			_ = os.Remove(paths[i])
+		}
+	}()
+	st, err := filterlist.NewRuleStorage(ls)
+	if err != nil {
+		panic(HarnessError(err.Error()))
+	}
+	e := urlfilter.NewDNSEngine(st)
+	listed := map[string]bool{"warm.test": true, "first.test": true}
+	for _, n := range l.names {
+		listed[n] = true
+	}
+	for _, p := range append([]string{"warm.test", "first.test"}, c18Probes(l.names)...) {
+		res, matched := e.MatchRequest(&urlfilter.DNSRequest{Hostname: p, DNSType: 1})
+		if (len(res.HostRulesV4)+len(res.HostRulesV6) > 0) != listed[p] || matched != listed[p] {
+			c.Run.Violate(ev.Violation{Pred: "engine-returns-rule-iff-listed", Sig: map[string]any{"line": l.line, "backing": "three file lists"},
+				What:   fmt.Sprintf("DNSEngine over three file-backed lists (a rule, an empty list, a hosts line followed by %q as the unterminated last line), query %q: matched=%v v4=%d v6=%d; listed=%v", l.line, p, matched, len(res.HostRulesV4), len(res.HostRulesV6), listed[p]),
+				Replay: map[string]any{"line": l.line, "addr": l.addr, "names": l.names}})
+			return
+		}
+	}
+}
+
 func init() {
 	register("C18", "exploration", func(c *Ctx) {
 		if c.Replay != nil {
@@ -186,6 +241,7 @@ func init() {
 				l.names = append(l.names, n.(string))
 			}
 			c18Check(c, l, true)
+			c18FileEngine(c, l)
 			return
 		}
 		var lines []c18Line
@@ -254,6 +310,10 @@ func init() {
 		}
 		var mu sync.Mutex
 		exhaustive := true
+		fileStride := 97
+		if c.Thorough() {
+			fileStride = 13
+		}
 		c.parallel(len(lines), func(i int) {
 			if c.Expired() {
 				mu.Lock()
@@ -262,6 +322,9 @@ func init() {
 				return
 			}
 			c18Check(c, lines[i], c.Thorough() || i%3 == 0)
+			if i%fileStride == 0 {
+				c18FileEngine(c, lines[i])
+			}
 			if i%20011 == 0 {
 				c.Run.Sample(map[string]any{"line": lines[i].line, "address": lines[i].addr, "names": lines[i].names})
 			}
